@@ -75,7 +75,7 @@ func (f *vfC15Factory) LoadNetworkInterface(mac string) ([]netip.Addr, []netip.A
 	return v4, v6, nil
 }
 
-func vfC15RunLoad(c *vt.Ctx, s vfC15LoadScenario) {
+func vfC15RunLoad(c g.Sink, s vfC15LoadScenario) {
 	c.Label("kind:" + s.Kind)
 	// the daemon's deserialiser (daemon/builder.go InitResourceDB): Unmarshal into
 	// daemon.PodResources; an error aborts start-up.
@@ -132,7 +132,7 @@ func vfC15RunLoad(c *vt.Ctx, s vfC15LoadScenario) {
 	_ = l.Priority()
 }
 
-func TestVerifC15LocalLoad(t *testing.T) { vt.Run(t, vfC15GenLoad, g.NoPanic(vfC15RunLoad)) }
+func TestVerifC15LocalLoad(t *testing.T) { vt.Run(t, vfC15GenLoad, g.NoPanic(g.Adapt(vfC15RunLoad))) }
 
 // Deterministic witness, printed only while the finding is listed as open.
 func TestVerifC15KnownWitnessRecordNilPodInfo(t *testing.T) {
